@@ -154,9 +154,9 @@ def validate_float_or_int(value, param_name, optional=False):
     return value
 
 
-def validate_positive_float(value, param_name, optional=False):
+def validate_positive_float(value, param_name, optional=False, allow_inf=False):
     """
-    Validates whether a given value is a positive float, and non-NaN.
+    Validates whether a given value is a finite positive float, and non-NaN.
 
     Parameters
     ----------
@@ -166,6 +166,8 @@ def validate_positive_float(value, param_name, optional=False):
         The name of the parameter to be used in the error message.
     optional : bool, optional
         Whether the value is optional. If optional and value is None, returns None. Default is False.
+    allow_inf : bool, optional
+        Whether positive infinity is an acceptable value. Default is False.
 
     Returns
     -------
@@ -193,6 +195,9 @@ def validate_positive_float(value, param_name, optional=False):
 
     if isnan(value):
         raise ValueError(f"'{param_name}' should be a non-NaN float number")
+
+    if isinf(value) and not allow_inf:
+        raise ValueError(f"'{param_name}' should be a finite float number")
 
     return value
 
